@@ -121,23 +121,77 @@ type block struct {
 	N     int
 }
 
-var flagNames = []struct {
-	f int
-	n string
-}{
-	{os.O_RDONLY, "RDONLY"}, {os.O_WRONLY, "WRONLY"}, {os.O_RDWR, "RDWR"},
-	{os.O_RDWR | os.O_CREATE, "RDWR|CREATE"}, {os.O_WRONLY | os.O_CREATE | os.O_EXCL, "WRONLY|CREATE|EXCL"},
-	{os.O_WRONLY | os.O_TRUNC, "WRONLY|TRUNC"}, {os.O_WRONLY | os.O_APPEND, "WRONLY|APPEND"},
-}
-
+// flagName spells a flag set: access mode, then CREATE, EXCL, TRUNC, APPEND.
 func flagName(f int) string {
-	for _, x := range flagNames {
-		if x.f == f {
-			return x.n
+	n := []string{"RDONLY", "WRONLY", "RDWR", "ACC3"}[f&3]
+
+	for _, x := range []struct {
+		f int
+		n string
+	}{{os.O_CREATE, "CREATE"}, {os.O_EXCL, "EXCL"}, {os.O_TRUNC, "TRUNC"}, {os.O_APPEND, "APPEND"}} {
+		if f&x.f != 0 {
+			n += "|" + x.n
+			f &^= x.f
 		}
 	}
 
-	return fmt.Sprintf("%#x", f)
+	if f &^= 3; f != 0 {
+		n += fmt.Sprintf("|%#x", f)
+	}
+
+	return n
+}
+
+// openFlagSets is the open-flag dimension: the FULL product
+//
+//	access mode {RDONLY, WRONLY, RDWR} x {-, TRUNC} x {-, APPEND} x {-, CREATE, CREATE|EXCL}
+//
+// (36 flag sets), not a list of the combinations programs usually write.
+// Lesson: a flag word is decoded flag by flag into "what the open needs", and
+// the kernel's rule is per flag - the access mode needs read and/or write
+// permission on the file, O_TRUNC needs write permission WHATEVER the access
+// mode (O_RDONLY|O_TRUNC is legal and truncates), O_APPEND needs nothing by
+// itself, O_CREATE needs write+search on the directory only when the name is
+// missing and nothing on a file that exists. A decoder that is right for every
+// usual combination (each of which names write access twice: WRONLY|TRUNC,
+// WRONLY|APPEND, RDWR|CREATE) can be wrong for one flag on its own; only the
+// unusual combinations, where exactly one flag carries the need, tell. Every
+// flag set is applied to an existing file, an existing directory and a missing
+// name (families Fo, Do, M) under every (owner, group, mode) configuration of
+// the family; the kernel gives the answer and the trees are compared after the
+// call (a refused O_TRUNC open must leave the content, an allowed one must
+// truncate on both sides).
+func openFlagSets() []int {
+	var fs []int
+
+	for _, cr := range []int{0, os.O_CREATE, os.O_CREATE | os.O_EXCL} {
+		for _, ap := range []int{0, os.O_APPEND} {
+			for _, tr := range []int{0, os.O_TRUNC} { // truncating sets last in each group: they change the file when allowed
+				for _, acc := range []int{os.O_RDONLY, os.O_WRONLY, os.O_RDWR} {
+					fs = append(fs, acc|cr|ap|tr)
+				}
+			}
+		}
+	}
+
+	return fs
+}
+
+// callsOpen: every flag set of openFlagSets on the operand (an existing file
+// or directory: perm and umask of a creating flag set must be ignored).
+func callsOpen() []callT {
+	var cs []callT
+
+	for _, f := range openFlagSets() {
+		c := callT{Op: "OpenFile", Variant: flagName(f), Flag: f, Umask: 0o022}
+		if f&os.O_CREATE != 0 {
+			c.Perm = 0o666
+		}
+
+		cs = append(cs, c)
+	}
+
+	return cs
 }
 
 var (
@@ -387,6 +441,24 @@ func callsM(tier string) []callT {
 		cs = append(cs, callT{Op: "Symlink", Umask: u, Creates: true})
 	}
 
+	// the open-flag dimension (openFlagSets) on a missing name: without O_CREATE
+	// the name stays missing whatever else is asked for, with it the directory
+	// decides; the flag sets that are varied over perm x umask below are left out
+	for _, f := range openFlagSets() {
+		switch f {
+		case os.O_RDONLY, os.O_RDWR | os.O_CREATE, os.O_WRONLY | os.O_CREATE | os.O_EXCL:
+			continue
+		}
+
+		c := callT{Op: "OpenFile", Variant: flagName(f), Flag: f, Umask: um}
+		if f&os.O_CREATE != 0 {
+			c.Perm, c.Creates = 0o666, true
+			c.Variant += "," + permClass(c.Perm)
+		}
+
+		cs = append(cs, c)
+	}
+
 	for _, p := range allPerms {
 		for _, u := range allUmasks {
 			v := permClass(p)
@@ -464,6 +536,22 @@ func families(tier string, depth int, lv level, tag string) []*family {
 	// owner matters in a sticky directory
 	onto := append(with("F", ogOnly), nodeT{"b", dest, "F", ogOnly})
 
+	// Fo / Do: the open-flag dimension (openFlagSets) on an existing file and an
+	// existing directory. The flags interact with the permission bits of the
+	// operand (full leaf domain for the file) and, through O_CREATE, with write
+	// permission on the containing directory; special bits of the directories
+	// and the other classes' bits of the containing directory do not take part
+	// in that decision, so those nodes use the 8-value set without special bits
+	// (the product with the full directory domains is what F and D enumerate for
+	// the usual flag sets).
+	var odirs []nodeT
+	for _, d := range dirs {
+		odirs = append(odirs, nodeT{d.Role, d.Path, d.Kind, dom{OG: d.Dom.OG, Modes: min(d.Dom.Modes, 0)}})
+	}
+
+	fo := append(append([]nodeT{}, odirs...), nodeT{"leaf", leaf, "F", lv.leaf})
+	do := append(append([]nodeT{}, odirs...), nodeT{"leaf", leaf, "D", dom{OG: lv.leafDir.OG, Modes: min(lv.leafDir.Modes, 0)}})
+
 	return []*family{
 		{ID: id("F"), Depth: depth, Nodes: with("F", lv.leaf), Leaf: leaf, LeafKind: "F", Calls: callsF(tier, dest)},
 		{ID: id("M"), Depth: depth, Nodes: dirs, Leaf: leaf, LeafKind: "M", Calls: callsM(tier)},
@@ -474,6 +562,8 @@ func families(tier string, depth int, lv level, tag string) []*family {
 			{Op: "Link", Variant: "samedir-onto", Dest: dest, Umask: um},
 			{Op: "Rename", Variant: "samedir-onto", Dest: dest, Umask: um},
 		}},
+		{ID: id("Fo"), Depth: depth, Nodes: fo, Leaf: leaf, LeafKind: "F", Calls: callsOpen()},
+		{ID: id("Do"), Depth: depth, Nodes: do, Leaf: leaf, LeafKind: "D", Calls: callsOpen()},
 	}
 }
 
